@@ -291,6 +291,7 @@ func (e *Exec) call(fn *ssa.Function, fc *FuncContract, st *State, x *ssa.Call) 
 			e.recordRet(st, callee.Name(), x)
 		} else if x.Call.IsInvoke() {
 			e.recordRet(st, x.Call.Method.Name(), x)
+			e.recordRet(st, qualName(&x.Call), x)
 		}
 	}
 	return cont, ex
@@ -324,6 +325,7 @@ func (e *Exec) doCall(fn *ssa.Function, fc *FuncContract, st *State, cc *ssa.Cal
 	if cc.IsInvoke() {
 		e.check(st, "nil", "invoke:"+e.srcText(cc.Value.Pos())+"."+cc.Method.Name(), fmt.Sprintf("(not (= (i-tag %s) 0))", fv.S), pos)
 		e.countCall(st, cc.Method.Name())
+		e.countCall(st, qualName(cc))
 		e.beforeCall(st, cc.Method.Name(), pos, args)
 		// interface method contract?
 		if ic := e.eng.ifaceContract(cc); ic != nil {
@@ -830,7 +832,7 @@ func (e *Exec) recordRet(st *State, name string, dst ssa.Value) {
 				if r.A != nil || r.Fn != nil || r.Tup != nil || r.S == "" || r.T == nil {
 					continue
 				}
-				g := fmt.Sprintf("%s_ret%d", name, i)
+				g := fmt.Sprintf("%s_ret%d", strings.ReplaceAll(name, ".", "_"), i)
 				e.ghostGet(st, g, r.T, e.sc.zero(r.T))
 				e.ghostSet(st, g, r.T, r.S)
 			}
@@ -845,8 +847,9 @@ func (e *Exec) countCall(st *State, name string) {
 	for _, cl := range e.fc.Lists["count_calls"] {
 		for _, n := range strings.Fields(cl.Expr) {
 			if n == name {
-				cur := e.ghostGet(st, name+"_calls", tInt, e.sc.idxLit(0))
-				e.ghostSet(st, name+"_calls", tInt, e.add(cur.S, e.sc.idxLit(1)))
+				g := strings.ReplaceAll(name, ".", "_")
+				cur := e.ghostGet(st, g+"_calls", tInt, e.sc.idxLit(0))
+				e.ghostSet(st, g+"_calls", tInt, e.add(cur.S, e.sc.idxLit(1)))
 			}
 		}
 	}
@@ -882,6 +885,22 @@ func (e *Exec) beforeCall(st *State, name string, pos token.Pos, args []Val) {
 		if j < 0 || strings.TrimSpace(cl.Expr[:j]) != name {
 			continue
 		}
+		skip := false
+		var props []string
+		for _, p := range cl.Props {
+			if strings.HasPrefix(p, "@") {
+				if !e.sct.matches(p[1:]) {
+					skip = true
+				}
+			} else {
+				props = append(props, p)
+			}
+		}
+		if skip {
+			continue
+		}
+		cl.Props = props
+		cl.Expr = e.sct.subst(cl.Expr)
 		c := e.specEnv(st, e.entry)
 		// local variables visible at the call site
 		if e.curInstr != nil && e.curInstr.Block() != nil {
@@ -910,4 +929,16 @@ func (e *Exec) beforeCall(st *State, name string, pos token.Pos, args []Val) {
 		e.check(st, "before", fmt.Sprintf("%s.%d", name, i), t, pos)
 		e.propsDef = saved
 	}
+}
+
+// qualName: "<InterfaceType>.<Method>" of an interface call (for count_calls).
+func qualName(cc *ssa.CallCommon) string {
+	if !cc.IsInvoke() {
+		return ""
+	}
+	t := cc.Value.Type()
+	if n, ok := t.(*types.Named); ok {
+		return n.Obj().Name() + "." + cc.Method.Name()
+	}
+	return "." + cc.Method.Name()
 }
